@@ -126,6 +126,20 @@ func (c *vclock) Step(d time.Duration) int {
 	return n
 }
 
+// NextDeadline is the earliest deadline among the armed timers.
+func (c *vclock) NextDeadline() (time.Time, bool) {
+	c.mu.Lock()
+	defer c.mu.Unlock()
+	var best time.Time
+	ok := false
+	for _, t := range c.pending {
+		if !ok || t.deadline.Before(best) {
+			best, ok = t.deadline, true
+		}
+	}
+	return best, ok
+}
+
 // Pending is the number of armed timers that have not fired.
 func (c *vclock) Pending() int {
 	c.mu.Lock()
